@@ -10,9 +10,11 @@ Rules(c) ==
       rq == IF pull THEN "A" ELSE "B"
       accepted == \E i \in 1..Len(st) : st[i].node = "A" /\ st[i].obs.stim.msg.kind = "New" /\ st[i].obs.stim.msg.accepted /\ ~st[i].obs.stim.msg.isReq
       recvAll == \A b \in 1..c.nblocks : \E i \in 1..Len(st) : st[i].node = rq /\ st[i].obs.stim.kind = "OnDataReceived" /\ st[i].obs.stim.args.index = b /\ st[i].obs.ret \in {"nil","pause"}
-      sentFinal == \E i \in 1..Len(st) : st[i].node = "B" /\ \E k \in 1..Len(st[i].obs.net) : st[i].obs.net[k].what = "send" /\ st[i].obs.net[k].ok
-                                             /\ st[i].obs.net[k].msg.kind = "Complete" /\ ~st[i].obs.net[k].msg.paused
-                   \/ \E i \in 1..Len(st) : st[i].node = "B" /\ \E k \in 1..Len(st[i].obs.tr) : st[i].obs.tr[k].call = "resume" /\ st[i].obs.tr[k].msg.kind = "Complete" /\ ~st[i].obs.tr[k].msg.paused
+      sentNet == \E i \in 1..Len(st) : (st[i].node = "B" /\ (\E k \in 1..Len(st[i].obs.net) :
+                       (st[i].obs.net[k].what = "send" /\ st[i].obs.net[k].ok /\ st[i].obs.net[k].msg.kind = "Complete" /\ ~st[i].obs.net[k].msg.paused)))
+      sentTr == \E i \in 1..Len(st) : (st[i].node = "B" /\ (\E k \in 1..Len(st[i].obs.tr) :
+                       (st[i].obs.tr[k].call = "resume" /\ st[i].obs.tr[k].msg.kind = "Complete" /\ ~st[i].obs.tr[k].msg.paused)))
+      sentFinal == sentNet \/ sentTr
       fA == c.finalA  fB == c.finalB
       recvd == IF pull THEN fA.received ELSE fB.received
       queued == IF pull THEN fB.queued ELSE fA.queued
